@@ -6,6 +6,7 @@ import AdeuModel.Model.Init
 import AdeuModel.DriverDoc
 import AdeuModel.Model.Mapper
 import AdeuModel.Model.Engine
+import AdeuModel.Model.Markup
 /-
 Line protocol driver: one JSON object per input line, one JSON result per output line.
 Imports model files only (never Lemmas/Props), so it can be compiled to a native executable.
@@ -237,6 +238,39 @@ def handleDiffApply (j : Json) : Except String Json := do
     ("src", strJ (Diff.src ds)), ("raw_before", strJ (Doc.extractText false s0.doc)),
     ("clean_after", strJ (Doc.extractText true s1.doc)), ("doc", DriverDoc.docFullJ s1.doc)]
 
+/-! ### preview (C14) -/
+def segJ (sg : Markup.Seg) : Json :=
+  match sg with
+  | .plain t => Json.arr #[Json.str "plain", strJ t]
+  | .del t => Json.arr #[Json.str "del", strJ t]
+  | .ins t => Json.arr #[Json.str "ins", strJ t]
+  | .hl t => Json.arr #[Json.str "hl", strJ t]
+  | .note t => Json.arr #[Json.str "meta", strJ t]
+
+def handlePreview (j : Json) : Except String Json := do
+  let text ← getStr j "text"
+  let eds ← j.getObjValAs? (Array Json) "edits"
+  let edits ← eds.toList.mapM fun e => do
+    let fzj ← e.getObjVal? "fz"
+    let fz : Option (Nat × Nat) ← match fzj with
+      | Json.null => pure none
+      | v => do
+          let a ← v.getArrVal? 0 >>= fun x => x.getNat?
+          let b ← v.getArrVal? 1 >>= fun x => x.getNat?
+          pure (some (a, b))
+    pure ({ target := ← getStr e "target", new := ← getStr e "new", comment := ← getStr e "comment", fz := fz } : Markup.MEdit)
+  let o : Markup.Opts := { includeIndex := ← j.getObjValAs? Bool "include_index", highlightOnly := ← j.getObjValAs? Bool "highlight_only" }
+  let segs := Markup.previewSegs text edits o
+  let kept := Markup.keptDesc text edits
+  pure <| Json.mkObj [
+    ("out", strJ (Markup.previewStr text edits o)),
+    ("render", strJ (Markup.render segs)),
+    ("reject", strJ (Markup.rejectView segs)),
+    ("accept", strJ (Markup.acceptView segs)),
+    ("segs", Json.arr (segs.map segJ).toArray),
+    ("matches", toJson ((Markup.matchesFrom text edits 0).map fun m => [m.s, m.e, m.idx])),
+    ("kept", toJson (kept.map fun m => [m.s, m.e, m.idx]))]
+
 def handle (j : Json) : Except String Json := do
   let op ← j.getObjValAs? String "op"
   match op with
@@ -251,6 +285,7 @@ def handle (j : Json) : Except String Json := do
   | "apply_indexed" => handleApplyIndexed j
   | "review" => handleReview j
   | "diff_apply" => handleDiffApply j
+  | "preview" => handlePreview j
   | _ => throw s!"bad-op {op}"
 
 partial def loop (h : IO.FS.Stream) (out : IO.FS.Stream) : IO Unit := do
